@@ -229,7 +229,7 @@ PROPS['C12'] = dict(
 PROPS['C13'] = dict(
     rules=[_r('DE', rs.de_rules, FLAVOURS), _r('G3', rs.g3_reader, FLAVOURS), _r('MAP', rc.map_rules, FLAVOURS), _r('P1', re_.p1_connect, FLAVOURS),
            _r('LOOP-SRC', re_.loop_src, FLAVOURS, r'graph_serde|serde::de::Visitor>::visit_seq$', 'the serde reader')],
-    explanation='On visit_seq and everything it calls in-crate: each connect is dominated by the success outcome of both endpoint lookups and a failed lookup returns Err(custom(..)) with no '
+    explanation='Decoding errors of the element reads are propagated, never read as an absent list (DE6). On visit_seq and everything it calls in-crate: each connect is dominated by the success outcome of both endpoint lookups and a failed lookup returns Err(custom(..)) with no '
                 'connect on the way (DE1); no unwrap/expect/panic/indexing/arithmetic assert in deserialize, visit_seq or their closures (DE2); the graph is built only through '
                 'Graph::insert and Node::connect with arguments taken from document elements (DE3), so the mirror/symmetry invariants follow from C01/C02 (P1) and repeated keys are '
                 'refused by insert (MAP); a missing element leaves the list empty and both lists are walked by plain for-loops (DE4); no conflicting re-borrow on the insert/connect '
